@@ -212,6 +212,10 @@ def run(rep: Report):
     tier = rep.tier
     opts = {"prove_timeout_ms": 10000, "fork_timeout_ms": 2000, "seed": rep.seed, "scenario_wall_s": 240 if tier == "quick" else 1500}
     run_plan(rep, _plan(tier), SCENARIOS, opts)
+    if tier == "thorough":
+        from ..runner import run_crosshair
+
+        run_crosshair(rep, "ch_c09")
     rep.bounds = {"moves": "<=2 (quick) / <=3", "cycles": "1-3 (quick) / 1-4", "intervals": "symbolic in [1,3]", "step": "symbolic in [0,6] (forks are on step % interval == 0, not on values)", "minimum counts": "[0,2], sum <= cycles", "weights": "symbolic reals in [0,10], due weights not all zero"}
     rep.assumptions = ["numpy Generator.choice contract: choice(a, p) returns a[k] with p[k] > 0; choice(arange(n), size=k, replace=False) returns k distinct slots"]
     rep.stubs = ["SymRNG behind a recording wrapper", "bare move/criteria objects"]
